@@ -198,7 +198,8 @@ def main():
             cov[k] = v
     ev = {'property_id': prop, 'tier': tier, 'seed': seed, 'level': 'proof', 'coverage': cov,
           'assumptions': res.get('assumptions', []), 'wall_s': round(wall, 2), 'violations': printed_v}
-    if not a.replay:
+    if not a.replay and not os.environ.get('VERIF_REPO'):
+        # evidence is written only for runs against /repo itself (never for experiments on scratch worktrees)
         os.makedirs(os.path.join(ROOT, 'evidence'), exist_ok=True)
         json.dump(ev, open(os.path.join(ROOT, 'evidence', '%s.json' % prop), 'w'), indent=1, default=str)
     for l in lines:
